@@ -88,7 +88,7 @@ def _fragments(opts, variant):
     if opts.get("l"):
         fr.append(["-l", variant.get("l", "30")])
     if opts.get("L"):
-        fr.append(["-L", "40"])
+        fr.append(["-L", variant.get("L_len", "40")])
     if opts.get("trimn"):
         fr.append(["--trim-n"])
     if opts.get("lengthtag"):
@@ -105,6 +105,8 @@ def _fragments(opts, variant):
         fr.append(["--rename", "{id}_r {comment}"])
     if opts.get("zerocap"):
         fr.append(["-z"])
+    if "qbase" in variant:
+        fr.append(["--quality-base", variant["qbase"]])
     return fr
 
 
@@ -354,7 +356,7 @@ def _expected(opts, variant, mate, paired):
     if mate == 1 and opts.get("l"):
         length = int(variant.get("l", "30"))
     if mate == 2:
-        length = 40 if opts.get("L") else (int(variant.get("l", "30")) if opts.get("l") else None)
+        length = int(variant.get("L_len", "40")) if opts.get("L") else (int(variant.get("l", "30")) if opts.get("l") else None)
     if length is not None:
         e.append((5, ("Shortener",), ("length", length)))
     if opts.get("trimn"):
@@ -371,6 +373,15 @@ def _expected(opts, variant, mate, paired):
     if opts.get("zerocap"):
         last.append(("ZeroCapper",))
     return e, last
+
+
+def _base_ok(orig, variant):
+    """quality-based steps of either mate must be built with the --quality-base of the command line"""
+    qbase = int(variant.get("qbase", "33"))
+    for attr in ("base", "quality_base"):
+        if hasattr(orig, attr) and getattr(orig, attr) != qbase:
+            return False
+    return True
 
 
 def _param_ok(orig, check):
@@ -417,10 +428,10 @@ def _chain_ok(events, recs, opts, variant, mate, paired, x):
         cls = type(orig).__name__
         if n < len(ordered):
             _rank, names, check = ordered[n]
-            if cls not in names or not _param_ok(orig, check):
+            if cls not in names or not _param_ok(orig, check) or not _base_ok(orig, variant):
                 return False
         else:
-            if (cls,) not in last:
+            if (cls,) not in last or not _base_ok(orig, variant):
                 return False
     if len(last) == 2 and type(recs[steps[-1][0]][0]).__name__ == type(recs[steps[-2][0]][0]).__name__:
         return False
@@ -568,7 +579,7 @@ def _add(paired, variant, nbits, pieces, live="three", tails="all", timeout=600,
 # single-end: all 3072 subsets, every pipeline re-run under CrossHair; variants with all name-option combinations
 _add(False, {}, 6, 2, live="all", tag="-u x1")
 _add(False, {"cuts": 2, "q": "5,10", "xy": "x", "times": "2", "action": "mask"}, 6, 1, tag="-u x2, -q 5,10, -x only, --times 2 --action mask")
-_add(False, {"adapter": "revcomp", "xy": "y"}, 6, 1, tag="--revcomp, -y only")
+_add(False, {"adapter": "revcomp", "xy": "y", "qbase": "64"}, 6, 1, tag="--revcomp, -y only, --quality-base 64")
 _add(False, {"adapter": "front", "nextseq": "0", "l": "0", "cuts": 3}, 6, 1, live="none", tag="-g, --nextseq-trim 0, -l 0, -u 0 -u 5")
 # paired-end: all 49152 subsets in the base variant; the variants concern trimming options only and are combined with
 # three name-option combinations (none / all with -x -y / all with --rename)
@@ -577,6 +588,7 @@ _add(True, {"cuts": 2, "q": "5,10", "Q": "3,15", "times": "2", "action": "mask"}
 _add(True, {"adapter": "revcomp"}, 10, 2, tails="three", live="none", tag="--revcomp")
 _add(True, {"adapter": "pair", "xy": "x"}, 10, 2, tails="three", live="none", tag="--pair-adapters, -x only")
 _add(True, {"Q": "0", "xy": "y", "nextseq": "0", "l": "0", "cuts": 3}, 10, 2, tails="three", live="none", tag="-Q 0, -y only, --nextseq-trim 0, -l 0, -u 0 -u 5 -U 7 -U 0")
+_add(True, {"L_len": "0", "q": "0", "Q": "7", "xy": "x", "qbase": "64"}, 10, 2, tails="three", live="none", tag="-L 0 (with and without -l 30), -q 0 -Q 7, -x only, --quality-base 64")
 _add(True, {}, 10, 16, live="all", timeout=3000, thorough_only=True, tag="-u/-U x1, every pipeline re-run")
 _add(True, {"cuts": 2, "q": "5,10", "Q": "3,15", "adapter": "revcomp"}, 10, 16, live="none", timeout=3000, thorough_only=True, tag="-u/-U x2, -q 5,10 -Q 3,15, --revcomp, all name options")
 
@@ -590,7 +602,7 @@ def describe():
         "bounds": {"options": "single-end: all subsets of {-u, --nextseq-trim, -q, -a, --poly-a, -l} x {--trim-n, --length-tag, --strip-suffix, -x/-y, --rename, -z} (3072 admissible subsets: --rename excludes -x/-y), "
                               "every one of their pipelines re-run under CrossHair; paired-end: all subsets of {-u, -U, --nextseq-trim, -q, -Q, -a, -A, --poly-a, -l, -L} x the same name options (49152 subsets) natively, "
                               "of which per trimming-option subset three pipelines (no name option / all with -x -y / all with --rename) are re-run under CrossHair (quick; thorough re-runs all 49152)",
-                   "variants": "each with all trimming-option subsets: -u/-U given twice (order given) with -q 5,10 -Q 3,15; -g instead of -a; --revcomp; --pair-adapters; -Q 0; --nextseq-trim 0 and -l 0 (boundary values that are settings, not absence); -u 0 / -U 0 (removes nothing: no step); --times 2 --action mask (must reach the adapter cutter of either mate); -x alone; -y alone "
+                   "variants": "each with all trimming-option subsets: -u/-U given twice (order given) with -q 5,10 -Q 3,15; -g instead of -a; --revcomp; --pair-adapters; -Q 0; --nextseq-trim 0, -l 0, -L 0 next to -l 30, -q 0 next to -Q 7 (boundary values that are settings, not absence); --quality-base 64 (must reach the quality-based steps of either mate: NextSeq, -q/-Q, -z); -u 0 / -U 0 (removes nothing: no step); --times 2 --action mask (must reach the adapter cutter of either mate); -x alone; -y alone "
                                "(single-end variants x all 48 name-option combinations, paired variants x three of them)",
                    "argv": "three permutations per subset (as listed, reversed with the file names first, interleaved with the file names in the middle); a repeated -u keeps its relative order",
                    "reads": "one abstract read (pair) per run; payload symbolic"},
